@@ -271,6 +271,7 @@ class State:
         self.flags = []         # text repairs the tree already has (probed)
         self.nl = 0             # 1 when `.` already excludes CR (probed)
         self.blocks = []        # names of ublock2urange
+        self.negb = 0           # 1 when the tree rewrites \P{IsX} outside a class to [^\p{IsX}] first (probed; fixes/F185.diff)
         self.sub = 0            # 1 when the tree translates class subtraction (probed; fixes/F181.diff)
         self.mce = ""           # XSD multi-character escape letters the tree translates in pass 1 (probed; fixes/F182.diff, F183.diff)
 
@@ -439,7 +440,7 @@ def attribute(cx, st, failing, stats):
             fid = "F182"
         elif (fs & {"w", "W", "s", "S"}) - set(st.mce):
             fid = "F183"
-        elif "Pblock" in fs or any(("\\p{Is%s}" % b).encode() in c.pat for b in NONTABLE_BLOCKS):
+        elif (("in-class:Pblock" in fs) if st.negb else ("Pblock" in fs)) or any(("\\p{Is%s}" % b).encode() in c.pat for b in NONTABLE_BLOCKS):
             fid = "F185"
         if fid:
             stats["attributed-" + fid] += 1
@@ -557,6 +558,12 @@ def probe(cx):
     if gs[:2] != ["ok", str(st.sub)]:
         cx.fail(COMP, "translator and harness disagree on whether pass 1 translates class subtraction",
                 {"Generated.UBlocks.subtraction": gs, "harness_rewrite_of_[a-[b]]": (unhex(r7[1]).decode("utf-8", "replace") if r7[0] == "ok" else r7)})
+    r8 = cx.run_impl(HARNESS, ["nb %s rewrite - %s" % (COMP, hexs(b"\\P{IsGreek}"))], component=COMP).get("nb", ["err"])
+    st.negb = 1 if (r8[0] == "ok" and unhex(r8[1]).startswith(b"[^")) else 0
+    gn = cx.run_model(["gn %s negblocks" % COMP]).get("gn", ["err"])
+    if gn[:2] != ["ok", str(st.negb)]:
+        cx.fail(COMP, "translator and harness disagree on whether negated block escapes are rewritten before pass 1",
+                {"Generated.UBlocks.negBlocks": gn, "harness_rewrite_of_\\P{IsGreek}": r8[:2]})
     gm = cx.run_model(["gm %s mce" % COMP]).get("gm", ["err"])
     if gm[0] != "ok" or sorted(gm[1] if gm[1] != "-" else "") != sorted(st.mce):
         cx.fail(COMP, "translator and harness disagree on the multi-character escapes pass 1 translates",
@@ -564,7 +571,7 @@ def probe(cx):
     info = ri.get("p0", ["err"])
     st.nl = 1 if (info[0] == "ok" and info[2] != "2") else 0
     cx.notes.append("tree state probed through the harness: repairs present = %s, multi-character escapes translated = %s, class subtraction translated = %s, newline convention %s, PCRE2 %s"
-                    % (flagstr(st.flags) + ("+nl" if st.nl else ""), st.mce or "-", "yes" if st.sub else "no", info[2] if info[0] == "ok" else "?", info[3] if info[0] == "ok" else "?"))
+                    % (flagstr(st.flags) + ("+nl" if st.nl else ""), st.mce or "-", ("yes" if st.sub else "no") + (", \\P{IsX} outside classes rewritten" if st.negb else ""), info[2] if info[0] == "ok" else "?", info[3] if info[0] == "ok" else "?"))
     return st
 
 
@@ -593,6 +600,16 @@ def rewrite_inputs(cx, st):
             out.append(a + b)
     for _ in range(cx.n(1500, 20000)):
         out.append(b"".join(rng.choice(SUBP) for _ in range(rng.randrange(2, 6))))
+    # negated block escapes (F185: `\P{IsX}` at depth 0 is rewritten to `[^\p{IsX}]` first when the source has the pass)
+    NEGP = [b"\\P{IsGreek}", b"\\P{IsSpecials}", b"\\P{IsFoo}", b"\\P{Is", b"\\P{IsGreek", b"\\P{L}", b"\\\\P{IsGreek}", b"[", b"]", b"\\[", b"\\]", b"}", b"{", b"\\", b"a", b"\\p{IsGreek}",
+            b"[a", b"^", b"+", b"[^\\P{IsGreek}]", b"\\}", b"P{IsGreek}"]
+    for a in NEGP:
+        out.append(a)
+        for b in NEGP:
+            out.append(a + b)
+            out.append(a + b + b"\\P{IsBasicLatin}")
+    for _ in range(cx.n(1500, 20000)):
+        out.append(b"".join(rng.choice(NEGP) for _ in range(rng.randrange(2, 6))))
     out.append(b"[" * 70 + b"a-[b" + b"]" * 72)
     out.append(b"[a" + b"-[a" * 70 + b"]" * 71)
     names = st.blocks or ["BasicLatin", "Greek", "GreekExtended", "Specials"]
